@@ -126,7 +126,7 @@ fn bounds(op: &Op, tier: Tier) -> Vec<(u32, u32)> {
             if q {
                 vec![(4, 3), (5, 2)]
             } else {
-                vec![(7, 3), (6, 4)]
+                vec![(6, 4)]
             }
         },
         Op::Share => {
@@ -136,9 +136,11 @@ fn bounds(op: &Op, tier: Tier) -> Vec<(u32, u32)> {
                 vec![(7, 4)]
             }
         },
-        Op::Net(_) => {
+        Op::Net(n) => {
             if q {
                 vec![(4, 2)]
+            } else if n.starts_with("share(") {
+                vec![(5, 3)]
             } else {
                 vec![(6, 3)]
             }
